@@ -37,10 +37,19 @@ theorem Shape.contAux {st1 : SState} {aux : List B} (h : st1.path = st.path) (hv
   obtain ⟨ext, he⟩ := addConds_path_ext s aux st1
   exact Or.inl ⟨_, ext, rfl, by rw [he, h], by rw [addConds_visits, hv]⟩
 
+theorem Shape.copy {rest : List HV} {loc size : Nat} {g : Nat → T} :
+    Shape s o cfg code st (copyToMemOut cfg st rest loc size g) := by
+  unfold copyToMemOut
+  split
+  · exact Shape.cont0 rfl rfl
+  · split
+    · exact Shape.halt rfl
+    · exact Shape.cont0 rfl rfl
+
 macro "shape_leaf" : tactic =>
   `(tactic| first
     | exact Shape.cont0 rfl rfl | exact Shape.cont rfl rfl | exact Shape.halt rfl | exact Shape.stuck rfl
-    | exact Shape.jumpi rfl rfl | exact Shape.contAux rfl rfl)
+    | exact Shape.jumpi rfl rfl | exact Shape.contAux rfl rfl | exact Shape.copy)
 
 macro "shape_branch" : tactic => `(tactic| ((repeat' split) <;> shape_leaf))
 
@@ -107,6 +116,12 @@ theorem step_shape : Shape s o cfg code st (step s o cfg env code st) := by
     · rw [if_pos h]; shape_branch
     rw [if_neg h]; clear h
     by_cases h : op = 0x51 ∨ op = 0x52 ∨ op = 0x53
+    · rw [if_pos h]; shape_branch
+    rw [if_neg h]; clear h
+    by_cases h : op = 0x37
+    · rw [if_pos h]; shape_branch
+    rw [if_neg h]; clear h
+    by_cases h : op = 0x39
     · rw [if_pos h]; shape_branch
     rw [if_neg h]; clear h
     shape_leaf
